@@ -369,9 +369,9 @@ def normV (a : Value) : Value :=
 
 def norm (w : WFN) : WFN := w.map normV
 
-/-- The hypothesis of the round trip on one value: a set value is not the
-    empty string and has no quoted underscore. -/
-def bindable (a : Value) : Prop := a.kind = .set → a.v ≠ [] ∧ nquAux false a.v = true
+/-- The hypothesis of the round trip on one value: a set value has no quoted
+    underscore. -/
+def bindable (a : Value) : Prop := a.kind = .set → nquAux false a.v = true
 
 theorem closed_bindValue (a : Value) (hv : validate a.v = true) : closedAux false (bindValue a) = true := by
   rcases a with ⟨k, v⟩
@@ -382,8 +382,8 @@ theorem closed_bindValue (a : Value) (hv : validate a.v = true) : closedAux fals
   · simp only [bindValue, bindVal_eq_bindE]
     exact closed_bindE false v (validate_wfq v hv)
 
-theorem unbindFSAttr_bindValue (a : Value) (hv : validate a.v = true) (hb : bindable a) :
-    unbindFSAttr (bindValue a) = normV a := by
+theorem unbindFSAttr_bindValue (a : Value) (hv : validate a.v = true) (h0 : a.kind = .set → a.v ≠ [])
+    (hb : bindable a) : unbindFSAttr (bindValue a) = normV a := by
   rcases a with ⟨k, v⟩
   cases k
   · rfl
@@ -392,15 +392,15 @@ theorem unbindFSAttr_bindValue (a : Value) (hv : validate a.v = true) (hb : bind
   · have hw := validate_wfq v hv
     have hne := validate_ne v hv
     have hb' := hb rfl
-    have h3 := bindE_ne_logical v hw hb'.1 hne.1 hne.2
+    have h3 := bindE_ne_logical v hw (h0 rfl) hne.1 hne.2
     simp only [bindValue, bindVal_eq_bindE, unbindFSAttr, h3.1, h3.2.1, h3.2.2, if_false, normV,
       unbindFSVal]
-    rw [unbind_bindE false v hw hb'.2]
+    rw [unbind_bindE false v hw hb']
     rfl
 
 theorem validate_nil : validate [] = true := by decide
 
-theorem valid_all (w : WFN) (h : valid w = .ok) : ∀ a ∈ w, validate a.v = true := by
+theorem valid_attrOk (w : WFN) (h : valid w = .ok) : ∀ a ∈ w, attrOk a = true := by
   unfold valid at h
   split at h
   · cases h
@@ -408,6 +408,22 @@ theorem valid_all (w : WFN) (h : valid w = .ok) : ∀ a ∈ w, validate a.v = tr
     simp only [Bool.not_eq_true, Bool.not_eq_false'] at hall
     intro a ha
     exact List.all_eq_true.1 hall a ha
+
+theorem valid_all (w : WFN) (h : valid w = .ok) : ∀ a ∈ w, validate a.v = true := by
+  intro a ha
+  have := valid_attrOk w h a ha
+  simp only [attrOk, Bool.and_eq_true] at this
+  exact this.1
+
+/-- A set value of a valid name is not the empty string. -/
+theorem valid_set_ne_nil (w : WFN) (h : valid w = .ok) : ∀ a ∈ w, a.kind = .set → a.v ≠ [] := by
+  intro a ha hk hv
+  have := valid_attrOk w h a ha
+  simp [attrOk, hk, hv] at this
+
+theorem attrOk_normV (a : Value) (h : attrOk a = true) : attrOk (normV a) = true := by
+  rcases a with ⟨k, v⟩
+  cases k <;> simp_all [normV, attrOk, validate_nil]
 
 theorem validate_normV (a : Value) (h : validate a.v = true) : validate (normV a).v = true := by
   rcases a with ⟨k, v⟩
@@ -418,14 +434,14 @@ theorem normV_kind_ne_unset (a : Value) : ((normV a).kind == Kind.unset) = false
   cases k <;> rfl
 
 theorem valid_norm (w : WFN) (h : valid w = .ok) (hne : w ≠ []) : valid (norm w) = .ok := by
-  have hall := valid_all w h
+  have hall := valid_attrOk w h
   cases w with
   | nil => exact absurd rfl hne
   | cons p w =>
-    have h1 : (norm (p :: w)).all (fun a => validate a.v) = true := by
+    have h1 : (norm (p :: w)).all attrOk = true := by
       simp only [norm, List.all_map, List.all_eq_true]
       intro a ha
-      exact validate_normV a (hall a ha)
+      exact attrOk_normV a (hall a ha)
     have h2 : (norm (p :: w)).all (fun a => a.kind == Kind.unset) = false := by
       simp [norm, normV_kind_ne_unset]
     unfold valid
@@ -471,7 +487,7 @@ theorem unbindFS_bindFS (w : WFN) (hv : valid w = .ok) (hl : w.length = Gen.Cpe.
     simp only [List.map_map, norm]
     apply List.map_congr_left
     intro a ha
-    exact unbindFSAttr_bindValue a (hall a ha) (hb a ha)
+    exact unbindFSAttr_bindValue a (hall a ha) (valid_set_ne_nil w hv a ha) (hb a ha)
   unfold unbindFS
   simp only [hpre, Bool.not_true, Bool.false_eq_true, if_false, hsplit, List.drop_succ_cons, List.drop_zero,
     List.length_map, hl, Nat.lt_irrefl, Nat.sub_self, List.replicate_zero, List.append_nil, hmap,
